@@ -1,0 +1,52 @@
+//go:build verif
+// +build verif
+
+package leveldbstorage
+
+import (
+	"bytes"
+
+	"github.com/syndtr/goleveldb/leveldb"
+)
+
+// VerifWriteHook, when set, is consulted before every write (Put, Delete, Batch) of every
+// Storage with the operation kind and the keys it is about to write; a non-nil error is
+// returned to the caller and the write does not happen. The harness builds its write log and
+// its fault budget ("after the k-th write every write fails", or "exactly these batches
+// land") on it.
+var VerifWriteHook func(st *Storage, op string, keys [][]byte, deletes int) error
+
+type verifBatchKeys struct {
+	keys    [][]byte
+	deletes int
+}
+
+func (b *verifBatchKeys) Put(key, _ []byte) { b.keys = append(b.keys, bytes.Clone(key)) }
+
+func (b *verifBatchKeys) Delete(key []byte) {
+	b.keys = append(b.keys, bytes.Clone(key))
+	b.deletes++
+}
+
+func verifWrite(st *Storage, op string, key []byte, batch *leveldb.Batch) error {
+	h := VerifWriteHook
+	if h == nil {
+		return nil
+	}
+
+	if batch == nil {
+		deletes := 0
+		if op == "delete" {
+			deletes = 1
+		}
+
+		return h(st, op, [][]byte{key}, deletes)
+	}
+
+	var bk verifBatchKeys
+	if err := batch.Replay(&bk); err != nil {
+		return err
+	}
+
+	return h(st, op, bk.keys, bk.deletes)
+}
